@@ -25,7 +25,7 @@ MODES = ['debug', 'release']
 IMPORTS = 'Require Import V.Base.MachineInt V.Model.Descriptor V.Oracle.C17Oracle.'
 RULE = ('boundary-centred grid: initial term id in {MIN, MIN+1, -1, 0, 1, MAX-65536..MAX dense, random}, elapsed terms n in '
         '{0,1,2,3,65535,65536,2^31-2,2^31-1, random}, all 15 legal term lengths (bits 16..30), offsets {0,32,TL-32,TL,random aligned}; '
-        'kinds: pos (5 descriptor functions), hdr (Header::position on a crafted frame), rot (rotate_log on crafted meta data), rotl (a late rotate_log call on meta data already rotated: nothing may change), '
+        'kinds: pos (5 descriptor functions), hdr (Header::position on a crafted frame), rot (rotate_log on crafted meta data), rotl (a late rotate_log call on meta data already rotated k = 1..7 times: nothing may change; theorem for k = 1, model + oracle for all k), '
         'pub / xpub (real Publication / ExclusivePublication offer on an in-memory log handed over at (n0, off0), n0 up to the last term 2^31-1), '
         'ppos (position() of both publication flavours with the tail counter at, before and beyond the end of the term); debug and release builds. '
         'A case is non-trivial when init + n leaves the i32 range (the term id has wrapped) or n >= 2^16; distinct = distinct argument tuples. '
@@ -86,8 +86,9 @@ def generate(rng, tier):
             cases.append({'kind': 'hdr', 'args': [init, n, bits, off, ln]})
             if n < 2**31 - 1:
                 cases.append({'kind': 'rot', 'args': [init, n, 32 * rng.randrange(0, 1000), 32 * rng.randrange(0, 1000), 32 * rng.randrange(0, 1000)]})
-            if n < 2**31 - 2:     # a late caller: the log is already at n+1 and the new term may hold data - nothing may change
-                cases.append({'kind': 'rotl', 'args': [init, n, 32 * rng.randrange(0, 1000), 32 * rng.randrange(0, 1000), 32 * rng.randrange(0, 1000)]})
+            if n < 2**31 - 10:     # a late caller: the log is already k >= 1 rotations further and the terms may hold data - nothing may change
+                for k in (1, rng.choice([2, 3, 4, 5, 6, 7])):
+                    cases.append({'kind': 'rotl', 'args': [init, n, 32 * rng.randrange(0, 1000), 32 * rng.randrange(0, 1000), 32 * rng.randrange(0, 1000), k]})
     # a real publication on a log handed over by the driver at (n0, off0)
     for init in inits[:12] + inits[-6:]:
         for n0 in [0, 1, 2, 5, 65536, 2**31 - 3] + [rng.randrange(0, 2**31 - 2)]:
@@ -144,10 +145,10 @@ def model_expr(c, mode):
                 'Ok s1 => Ok (meta_tuple s1) | Err e => Err e | Panic => Panic | Hang => Hang | Crash => Crash end)' % (
                     z(init), z(n), z(o0), z(o1), z(o2), m, z(n), z(init), z(n)))
     if c['kind'] == 'rotl':
-        init, n, o0, o1, o2 = a
+        init, n, o0, o1, o2, k = a
         return ('let s := c17_meta %s %s %s %s %s in (meta_tuple s, match rotate_log %s s %s (wrap32 (%s + %s)) with '
                 'Ok s1 => Ok (meta_tuple s1) | Err e => Err e | Panic => Panic | Hang => Hang | Crash => Crash end)' % (
-                    z(init), z(n + 1), z(o0), z(o1), z(o2), m, z(n), z(init), z(n)))
+                    z(init), z(n + k), z(o0), z(o1), z(o2), m, z(n), z(init), z(n)))
     if c['kind'] == 'ppos':
         init, n0, bits, off0 = a
         e = 'model_ppos %s %s %s %s %s' % (m, z(init), z(n0), z(bits), z(off0))
